@@ -25,10 +25,29 @@ def _f():
 
 
 def _dt_kwargs(p, dt):
-    """Constructor route for the sampling period: 'Dt' or 'frequency'."""
+    """Constructor route for the sampling period: 'Dt', 'frequency', or 'call' (a data-less instance keeps the
+    class default and is told the period on every call; the batch constructor, which has no per-call route, gets Dt)."""
     if p.get('dt_route', 'Dt') == 'frequency':
         return {'frequency': 1.0 / dt}
+    if p.get('dt_route') == 'call' and p.get('_dataless'):
+        return {}
     return {'Dt': dt}
+
+
+def call_dt(p, dt):
+    """What a streaming step passes as ``dt``: see _kw_dt."""
+    if p.get('dt_route') == 'call':
+        return float(dt)
+    return bool(p.get('dt_call', False))
+
+
+CONFIG_ARRAYS = ('b0', 'P', 'weights', 'q0')
+
+
+def make_config(params):
+    """Caller-owned configuration arrays of one application task (created once, reused for every object
+    the application builds from this configuration)."""
+    return {'_shared_' + k: np.array(params[k], dtype=float) for k in CONFIG_ARRAYS if params.get(k) is not None}
 
 
 def effective_dt(p, dt):
@@ -69,13 +88,28 @@ class Kind:
         return {}
 
 
+def _arr(p, name):
+    """A configuration array: the caller-owned object when the application keeps one ('_shared_<name>',
+    reused for every object it builds from this configuration), else a fresh array from the JSON value."""
+    if '_shared_' + name in p:
+        return p['_shared_' + name]
+    return np.array(p[name], dtype=float)
+
+
 def _q0(p):
-    q0 = p.get('q0')
-    return None if q0 is None else np.array(q0, dtype=float)
+    if p.get('q0') is None:
+        return None
+    return _arr(p, 'q0')
 
 
 def _kw_dt(dt_call, dt):
-    return {} if not dt_call else {'dt': dt}
+    """dt_call: False/None -> rely on the instance's Dt; True -> pass the instance's Dt explicitly;
+    a float -> pass that period on every call (instance built with the class default)."""
+    if dt_call is None or dt_call is False:
+        return {}
+    if dt_call is True:
+        return {'dt': dt}
+    return {'dt': float(dt_call)}
 
 
 class MadgwickIMU(Kind):
@@ -90,7 +124,7 @@ class MadgwickIMU(Kind):
         return kw
 
     def make(self, p, dt, dip):
-        return _f().Madgwick(**self.ctor_kwargs(p, dt, dip))
+        return _f().Madgwick(**self.ctor_kwargs(dict(p, _dataless=True), dt, dip))
 
     def batch(self, p, dt, dip, gyr, acc, mag):
         o = _f().Madgwick(gyr=gyr, acc=acc, **self.ctor_kwargs(p, dt, dip))
@@ -122,11 +156,11 @@ class MahonyIMU(Kind):
         if _q0(p) is not None:
             kw['q0'] = _q0(p)
         if p.get('b0') is not None:
-            kw['b0'] = p['_shared_b0'] if '_shared_b0' in p else np.array(p['b0'], dtype=float)
+            kw['b0'] = _arr(p, 'b0')
         return kw
 
     def make(self, p, dt, dip):
-        return _f().Mahony(**self.ctor_kwargs(p, dt, dip))
+        return _f().Mahony(**self.ctor_kwargs(dict(p, _dataless=True), dt, dip))
 
     def batch(self, p, dt, dip, gyr, acc, mag):
         o = _f().Mahony(gyr=gyr, acc=acc, **self.ctor_kwargs(p, dt, dip))
@@ -176,13 +210,13 @@ class EKFIMU(Kind):
         if 'noises' in p:
             kw['noises'] = list(p['noises'])
         if p.get('P') is not None:
-            kw['P'] = p['_shared_P'] if '_shared_P' in p else np.array(p['P'], dtype=float)
+            kw['P'] = _arr(p, 'P')
         if _q0(p) is not None:
             kw['q0'] = _q0(p)
         return kw
 
     def make(self, p, dt, dip):
-        return _f().EKF(**self.ctor_kwargs(p, dt, dip))
+        return _f().EKF(**self.ctor_kwargs(dict(p, _dataless=True), dt, dip))
 
     def batch(self, p, dt, dip, gyr, acc, mag):
         o = _f().EKF(gyr=gyr, acc=acc, **self.ctor_kwargs(p, dt, dip))
@@ -215,13 +249,13 @@ class UKFk(Kind):
             if k in p:
                 kw[k] = p[k]
         if p.get('P') is not None:
-            kw['P'] = np.array(p['P'], dtype=float)
+            kw['P'] = _arr(p, 'P')
         if _q0(p) is not None:
             kw['q0'] = _q0(p)
         return kw
 
     def make(self, p, dt, dip):
-        return _f().UKF(**self.ctor_kwargs(p, dt, dip))
+        return _f().UKF(**self.ctor_kwargs(dict(p, _dataless=True), dt, dip))
 
     def batch(self, p, dt, dip, gyr, acc, mag):
         o = _f().UKF(gyr=gyr, acc=acc, **self.ctor_kwargs(p, dt, dip))
@@ -247,7 +281,7 @@ class AQUAIMU(Kind):
         return kw
 
     def make(self, p, dt, dip):
-        return _f().AQUA(**self.ctor_kwargs(p, dt, dip))
+        return _f().AQUA(**self.ctor_kwargs(dict(p, _dataless=True), dt, dip))
 
     def batch(self, p, dt, dip, gyr, acc, mag):
         o = _f().AQUA(gyr=gyr, acc=acc, **self.ctor_kwargs(p, dt, dip))
@@ -279,7 +313,7 @@ class FouratiK(Kind):
         return kw
 
     def make(self, p, dt, dip):
-        return _f().Fourati(**self.ctor_kwargs(p, dt, dip))
+        return _f().Fourati(**self.ctor_kwargs(dict(p, _dataless=True), dt, dip))
 
     def batch(self, p, dt, dip, gyr, acc, mag):
         o = _f().Fourati(gyr=gyr, acc=acc, mag=mag, **self.ctor_kwargs(p, dt, dip))
@@ -309,13 +343,13 @@ class ROLEQk(Kind):
         elif mr == 'vector':
             kw['magnetic_ref'] = np.array(self.refs(p, dip)[1], dtype=float)
         if p.get('weights') is not None:
-            kw['weights'] = p['_shared_weights'] if '_shared_weights' in p else np.array(p['weights'], dtype=float)
+            kw['weights'] = _arr(p, 'weights')
         if _q0(p) is not None:
             kw['q0'] = _q0(p)
         return kw
 
     def make(self, p, dt, dip):
-        return _f().ROLEQ(**self.ctor_kwargs(p, dt, dip))
+        return _f().ROLEQ(**self.ctor_kwargs(dict(p, _dataless=True), dt, dip))
 
     def batch(self, p, dt, dip, gyr, acc, mag):
         o = _f().ROLEQ(gyr=gyr, acc=acc, mag=mag, **self.ctor_kwargs(p, dt, dip))
@@ -337,7 +371,7 @@ class AngularK(Kind):
         return kw
 
     def make(self, p, dt, dip):
-        return _f().AngularRate(**self.ctor_kwargs(p, dt, dip))
+        return _f().AngularRate(**self.ctor_kwargs(dict(p, _dataless=True), dt, dip))
 
     def batch(self, p, dt, dip, gyr, acc, mag):
         o = _f().AngularRate(gyr=gyr, **self.ctor_kwargs(p, dt, dip))
@@ -394,7 +428,7 @@ class SingleFrame(Kind):
     out_attr = 'Q'
 
     def make(self, p, dt, dip):
-        return getattr(_f(), self.cls)(**self.ctor_kwargs(p, dt, dip))
+        return getattr(_f(), self.cls)(**self.ctor_kwargs(dict(p, _dataless=True), dt, dip))
 
     def batch(self, p, dt, dip, gyr, acc, mag):
         o = getattr(_f(), self.cls)(acc, mag, **self.ctor_kwargs(p, dt, dip))
@@ -423,7 +457,7 @@ class OLEQk(SingleFrame):
         elif mr == 'vector':
             kw['magnetic_ref'] = np.array(self.refs(p, dip)[1], dtype=float)
         if p.get('weights') is not None:
-            kw['weights'] = p['_shared_weights'] if '_shared_weights' in p else np.array(p['weights'], dtype=float)
+            kw['weights'] = _arr(p, 'weights')
         return kw
 
 
@@ -436,7 +470,7 @@ class FLAEk(SingleFrame):
     def ctor_kwargs(self, p, dt, dip):
         kw = {'method': p.get('method', 'symbolic'), 'magnetic_dip': float(dip)}
         if p.get('weights') is not None:
-            kw['weights'] = p['_shared_weights'] if '_shared_weights' in p else np.array(p['weights'], dtype=float)
+            kw['weights'] = _arr(p, 'weights')
         return kw
 
     def step(self, inst, p, q, g, a, m, dt_call):
@@ -552,7 +586,7 @@ SINGLE_FRAME = [k for k, v in KINDS.items() if not v.recursive]
 # seeded parameter generation (swarm style: every run gets its own knobs)
 # ---------------------------------------------------------------------------
 def gen_params(rnd, kind, *, with_q0=True, defaults_prob=0.3):
-    p = {'dt_route': rnd.choice(['Dt', 'Dt', 'frequency']), 'dt_call': rnd.random() < 0.3}
+    p = {'dt_route': rnd.choice(['Dt', 'Dt', 'frequency', 'call']), 'dt_call': rnd.random() < 0.3}
     default = rnd.random() < defaults_prob
     k = KINDS[kind]
     if kind.startswith('madgwick'):
@@ -577,6 +611,9 @@ def gen_params(rnd, kind, *, with_q0=True, defaults_prob=0.3):
             p['alpha'] = 10 ** rnd.uniform(-3, 0)
             p['beta'] = rnd.choice([0, 2, 2.0])
             p['kappa'] = rnd.choice([0, 0.0, 1.0])
+        if rnd.random() < 0.4:
+            sc = 10 ** rnd.uniform(-3, -1)
+            p['P'] = [[sc if i == j else 0.0 for j in range(4)] for i in range(4)]
     elif kind.startswith('aqua') and kind != 'aqua_alg':
         if not default:
             p['alpha'] = 10 ** rnd.uniform(-3, -0.1)
